@@ -163,14 +163,14 @@ def group_job(job):
 def make_target(fam, image_k, seed, serial=None, es_len=None):
     import goodwe
     if fam == "ET":
-        inv = goodwe.ET("192.0.2.1", 8899)
+        inv = goodwe.ET("192.0.2.1", 502 if (image_k + seed) % 4 == 3 else 8899)    # every fourth target over Modbus/TCP
         regs = {}
         default = _image(image_k, seed)
         sim = siminv.make_et_sim(serial=serial or b"9010KETU000W0000", rated_power=(10000, 29900)[image_k % 2], default=default)
         if image_k % 3 == 0:
             sim.set(35184, 1)  # battery present so that the battery block is read
     elif fam == "DT":
-        inv = goodwe.DT("192.0.2.1", 8899)
+        inv = goodwe.DT("192.0.2.1", 502 if (image_k + seed) % 4 == 3 else 8899)
         dts = siminv.dt_serials()      # three-phase and single-phase tags: the model filters differ
         sim = siminv.make_dt_sim(serial=serial or dts[(image_k // 8 + seed) % len(dts)], default=_image(image_k, seed))
     else:
@@ -240,6 +240,7 @@ def api_job(job):
                 acc.fail("C11|exception|%s|%s" % (type(ex).__name__, _where(ex)), "%s raised %r" % (name, ex), dict(case, call=name))
             return None
 
+        acc.cls("api|%s|%s" % (fam, type(inv._protocol).__name__))
         call("read_device_info", inv.read_device_info())
         d = call("read_runtime_data", inv.read_runtime_data())
         if d is not None:
